@@ -6,14 +6,55 @@ import jdfgen
 
 META = dict(
     engine='seqx',
-    technique='grammar-based exhaustive enumeration of a finite family of JDF texts (counts in {1,2,MAX-1,MAX,MAX+1} x flow kinds x dependency targets x guards x ranges x properties, plus one-edit mutations of every valid text), each run twice through the real parsec-ptgpp and, when accepted, through gcc -fsyntax-only with the build flags',
+    technique='grammar-based exhaustive enumeration of a finite family of JDF texts (counts in {1,2,MAX-1,MAX,MAX+1} x flow kinds x dependency targets x guards x ranges x properties x parameter definitions x dependency back-end, plus one-edit mutations of valid texts), each run twice through the real parsec-ptgpp and, when accepted, through gcc -fsyntax-only with the build flags',
     level_text='For every enumerated JDF text: parsec-ptgpp terminates normally (no signal, no hang) and either exits non-zero with a diagnostic, or exits 0 and the generated C passes gcc -fsyntax-only with the include paths / defines of the build (the only tolerated compile failure is the "#error Too many ..." guard that ptgpp itself emits for programs over a build limit, which is how the must_fail_* tests expect over-limit programs to be refused); texts that exceed MAX_LOCAL_COUNT / MAX_PARAM_COUNT / MAX_DEP_IN_COUNT / MAX_DEP_OUT_COUNT are never accepted-and-compilable; two runs on the same input in different directories give byte-identical .c and .h.',
-    level_note='The family is finite and generated (one subject task class + mirror peers); limits are read from the generated parsec_options.h of the build under test; acceptance of valid programs is measured and reported but, as in the property statement, not demanded.',
+    level_note='The family is finite and generated (one subject task class + mirror peers); limits are read from the generated parsec_options.h of the build under test; acceptance of valid programs is measured and reported but, as in the property statement, not demanded. Failures that match the structural predicate of a finding listed in known_findings.json are reported as KNOWN-FINDING; everything else alarms.',
 )
 RULE = ("one execution = one JDF text pushed through parsec-ptgpp -E twice (+ gcc -fsyntax-only when accepted); states = distinct texts; transitions = tool invocations; "
         "distinct outcomes = distinct (exit status, normalised first diagnostic / compile verdict); non-trivial = texts at or over a limit, or mutated")
 
 GCC_FLAGS = ['-fsyntax-only', '-std=gnu11', '-w']
+
+# ---- genuine-defect candidates found by this check on the unchanged tree (see NOTES.md). A failing text is attributed to one of them
+# ---- only by the structural predicate below AND only if the lead listed the id in known_findings.json; otherwise it is a VIOLATION.
+F_FATAL = 'C24-fatal-sanity-errors-do-not-stop-ptgpp'
+F_TREMOTE = 'C24-type-remote-on-collection-input-asserts'
+F_TERN2 = 'C24-ternary-two-collection-inputs'
+F_IADER = 'C24-ia-derived-param-followed-by-param'
+
+RE_TERN2 = re.compile(r'<-[^\n]*\?\s*[A-Za-z_]\w*\s*\([^()\n]*\)\s*:\s*[A-Za-z_]\w*\s*\(')
+RE_TREMOTE = re.compile(r'<-[^\n]*(?:<-|\?|:)\s*[A-Za-z_]\w*\s*\([^()\n]*\)[^\n]*\[[^\]\n]*type_remote')
+
+
+def features(text, base_feats=()):
+    f = set(base_feats)
+    if RE_TERN2.search(text):
+        f.add('tern2coll')
+    if RE_TREMOTE.search(text):
+        f.add('type_remote_on_collection_input')
+    return f
+
+
+def attribute(t, r):
+    """-> finding id or None, by structural predicate on the text + the failure signature"""
+    out, msg, diag = r['outcome'], r.get('msg', ''), r.get('diag', '')
+    if out == 'signal' and 'type_remote_on_collection_input' in t['feats'] and 'jdf_generate_code_reshape_input_from_desc' in diag:
+        return F_TREMOTE
+    if out == 'accepted-not-compilable' and 'tern2coll' in t['feats'] and 'direct_access' in msg and 'redefinition' in msg:
+        return F_TERN2
+    if out == 'accepted-not-compilable' and 'ia_derived' in t['feats'] and re.search(r'__\w+_(min|max)\W+undeclared', msg):
+        return F_IADER
+    if out in ('accepted-not-compilable', 'signal') and 'Fatal Error on' in diag:
+        return F_FATAL
+    return None
+
+
+def listed_findings():
+    p = os.environ.get('VERIF_KNOWN_FINDINGS') or os.path.join(os.environ.get('VERIF_ROOT', '/verif'), 'known_findings.json')
+    try:
+        return {f.get('id') for f in json.load(open(p)).get('findings', []) if f.get('property') == 'C24' or 'C24' in str(f.get('also', ''))}
+    except Exception:
+        return set()
 
 
 def limits(build):
@@ -28,32 +69,33 @@ def limits(build):
 
 
 def build_texts(lim, tier):
-    """-> list of dict(name, text, cls) ; cls in within / edge / over / mutant"""
+    """-> list of dict(name, text, cls, args, feats) ; cls in within / edge / over / mutant"""
     T = []
     specs = jdfgen.enumerate_specs(lim, tier)
     bases = []
     for name, sp in specs:
         text, info = jdfgen.render(sp)
         cls = jdfgen.classify(sp, lim)
-        T.append(dict(name=name, text=text, cls=cls))
+        bf = {'ia_derived'} if (sp.get('derived') and sp['np'] >= 3 and '-M' in sp['args']) else set()
+        T.append(dict(name=name, text=text, cls=cls, args=list(sp['args']), feats=features(text, bf)))
         if cls == 'within':
-            bases.append((name, text, info))
+            bases.append((name, text, info, list(sp['args']), bf))
     # mutations: thorough = every operator on a spread of valid texts; quick = a rotating subset
     if tier == 'thorough':
         chosen = bases[::max(1, len(bases) // 34)]
-        for name, text, info in chosen:
+        for name, text, info, args, bf in chosen:
             for mn, mt in jdfgen.mutations(text, info):
-                T.append(dict(name='%s~%s' % (name, mn), text=mt, cls='mutant'))
+                T.append(dict(name='%s~%s' % (name, mn), text=mt, cls='mutant', args=args, feats=features(mt, bf)))
     else:
         chosen = bases[::max(1, len(bases) // 9)]
-        for bi, (name, text, info) in enumerate(chosen):
+        for bi, (name, text, info, args, bf) in enumerate(chosen):
             ms = jdfgen.mutations(text, info)
             for mi, (mn, mt) in enumerate(ms):
                 if (mi + bi) % 4 == 0:
-                    T.append(dict(name='%s~%s' % (name, mn), text=mt, cls='mutant'))
+                    T.append(dict(name='%s~%s' % (name, mn), text=mt, cls='mutant', args=args, feats=features(mt, bf)))
     seen = set(); R = []
     for t in T:
-        h = hashlib.sha1(t['text'].encode()).hexdigest()
+        h = hashlib.sha1((t['text'] + ' '.join(t['args'])).encode()).hexdigest()
         if h in seen:
             continue
         seen.add(h); R.append(t)
@@ -66,9 +108,21 @@ def norm_diag(s):
     return s[:110]
 
 
-def run_one(ptgpp, build, workdir, t, timeout=60):
-    """returns dict(verdict='ok'|'violation', outcome=..., msg=..., runs=n, accepted=bool, compiled=bool)"""
-    res = dict(runs=0, accepted=False, compiled=False, guard=False)
+def _spawn(cmd, **kw):
+    """subprocess.run that survives the tool binary being re-linked by a concurrent build"""
+    for attempt in range(40):
+        try:
+            return subprocess.run(cmd, **kw)
+        except (PermissionError, FileNotFoundError, OSError) as e:
+            if isinstance(e, subprocess.TimeoutExpired):
+                raise
+            time.sleep(0.5)
+    return subprocess.run(cmd, **kw)
+
+
+def run_one(ptgpp, build, workdir, t, timeout=120):
+    """returns dict(verdict='ok'|'violation', outcome=..., msg=..., diag=ptgpp output, runs=n, accepted, compiled, guard)"""
+    res = dict(runs=0, accepted=False, compiled=False, guard=False, diag='')
     outs = []
     for sub in ('a', 'b'):
         d = os.path.join(workdir, sub)
@@ -76,7 +130,7 @@ def run_one(ptgpp, build, workdir, t, timeout=60):
         with open(os.path.join(d, 't.jdf'), 'w') as f:
             f.write(t['text'])
         try:
-            r = subprocess.run([ptgpp, '-E', '-i', 't.jdf', '-o', 't', '-f', 't'], cwd=d, capture_output=True, text=True, errors='replace', timeout=timeout)
+            r = _spawn([ptgpp, '-E'] + list(t.get('args', [])) + ['-i', 't.jdf', '-o', 't', '-f', 't'], cwd=d, capture_output=True, text=True, errors='replace', timeout=timeout)
         except subprocess.TimeoutExpired:
             res.update(verdict='violation', outcome='hang', msg='parsec-ptgpp did not terminate within %d s' % timeout); return res
         res['runs'] += 1
@@ -87,6 +141,7 @@ def run_one(ptgpp, build, workdir, t, timeout=60):
             h = open(os.path.join(d, 't.h'), 'rb').read()
         outs.append((r.returncode, r.stdout + r.stderr, c, h))
     (rc1, diag1, c1, h1), (rc2, diag2, c2, h2) = outs
+    res['diag'] = diag1[-3000:]
     if rc1 < 0 or rc2 < 0:
         res.update(verdict='violation', outcome='signal', msg='parsec-ptgpp was killed by signal %d (neither a diagnostic + status nor compilable output): %s' % (-min(rc1, rc2), diag1.strip()[-300:])); return res
     if rc1 != rc2:
@@ -107,7 +162,7 @@ def run_one(ptgpp, build, workdir, t, timeout=60):
                    msg='two runs on the same input produce different %s (first difference at line %d: %r vs %r)' % (which, ln + 1, la[ln][:80] if ln < len(la) else b'', lb[ln][:80] if ln < len(lb) else b'')); return res
     inc = ['-I%s/parsec/include' % build, '-I%s' % build, '-I/repo/parsec/include', '-I/repo', '-I/repo/parsec']
     try:
-        g = subprocess.run(['gcc'] + GCC_FLAGS + ['-DBUILDING_PARSEC', '-D_GNU_SOURCE', '-DPARSEC_VERIF_HOOKS'] + inc + ['t.c'], cwd=os.path.join(workdir, 'a'), capture_output=True, text=True, errors='replace', timeout=300)
+        g = _spawn(['gcc'] + GCC_FLAGS + ['-DBUILDING_PARSEC', '-D_GNU_SOURCE', '-DPARSEC_VERIF_HOOKS'] + inc + ['t.c'], cwd=os.path.join(workdir, 'a'), capture_output=True, text=True, errors='replace', timeout=600)
     except subprocess.TimeoutExpired:
         res.update(verdict='violation', outcome='gcc-hang', msg='gcc -fsyntax-only on the generated C did not terminate'); return res
     res['runs'] += 1
@@ -121,7 +176,7 @@ def run_one(ptgpp, build, workdir, t, timeout=60):
         res['guard'] = True
         res.update(verdict='ok', outcome='accept+limit-guard: ' + norm_diag(next(l for l in errs if '#error' in l).split('error:', 1)[1])); return res
     res.update(verdict='violation', outcome='accepted-not-compilable',
-               msg='parsec-ptgpp exits 0 but the generated C does not compile: ' + ' | '.join(l.split('t.c:', 1)[-1] for l in errs[:3]))
+               msg='parsec-ptgpp exits 0 but the generated C does not compile: ' + ' | '.join(re.sub(r'^t\.[ch]:', '', l) for l in errs[:3]))
     return res
 
 
@@ -137,7 +192,7 @@ def check(ctx):
     build, ptgpp = _env(ctx)
     lim = limits(build)
     texts = build_texts(lim, ctx.tier)
-    budget = 70 if ctx.tier == 'quick' else 1080
+    budget = 75 if ctx.tier == 'quick' else 1080
     t0 = time.time()
     root = '/tmp/c24-%d' % os.getpid()
     shutil.rmtree(root, ignore_errors=True)
@@ -155,29 +210,27 @@ def check(ctx):
         finally:
             shutil.rmtree(wd, ignore_errors=True)
 
-    # expensive ones (accepted => gcc) are interleaved with cheap ones by the natural order
     with ThreadPoolExecutor(max_workers=jobs) as ex:
         list(ex.map(work, range(len(texts))))
     shutil.rmtree(root, ignore_errors=True)
 
+    listed = listed_findings()
     legs = {}
     nviol = 0
+    known_counts = {}
     valid_rejected = []
     for t, r in zip(texts, results):
         leg = {'within': 'valid', 'edge': 'valid', 'over': 'over-limit', 'mutant': 'near-valid'}[t['cls']]
         L = legs.setdefault(leg, dict(name=leg, engine='seqx', states=0, transitions=0, executions=0, nontrivial=0, outcomes=set(), exhaustive=True, violations=0, samples=[],
-                                      accepted=0, compiled=0, rejected=0, limit_guard=0))
+                                      accepted=0, compiled=0, rejected=0, limit_guard=0, known_finding_hits=0))
         if r is None:
             L['exhaustive'] = False
             continue
         L['states'] += 1; L['executions'] += 1; L['transitions'] += r['runs']
         L['outcomes'].add(r['outcome'])
-        if t['cls'] != 'within' or re.search(r'(19|20|9|10)(_|$)', t['name']):
+        if t['cls'] != 'within' or re.search(r'(%d|%d|%d|%d)(_|$|@)' % (lim['MAX_PARAM_COUNT'] - 1, lim['MAX_PARAM_COUNT'], lim['MAX_DEP_IN_COUNT'] - 1, lim['MAX_DEP_IN_COUNT']), t['name']) or t['args']:
             L['nontrivial'] += 1
-        if r['accepted']:
-            L['accepted'] += 1
-        else:
-            L['rejected'] += 1
+        L['accepted' if r['accepted'] else 'rejected'] += 1
         if r['compiled']:
             L['compiled'] += 1
         if r['guard']:
@@ -185,23 +238,32 @@ def check(ctx):
         if t['cls'] == 'within' and not r['compiled']:
             valid_rejected.append('%s -> %s' % (t['name'], r['outcome']))
         if len(L['samples']) < 4 and (L['executions'] % 7 == 1):
-            L['samples'].append('%s => %s' % (t['name'], r['outcome']))
+            L['samples'].append('%s => %s' % (t['name'] + (' ' + ' '.join(t['args']) if t['args'] else ''), r['outcome']))
         if r['verdict'] == 'violation':
+            fid = attribute(t, r)
+            if fid and fid in listed:
+                L['known_finding_hits'] += 1
+                known_counts[fid] = known_counts.get(fid, 0) + 1
+                if known_counts[fid] == 1:
+                    ctx.known_finding('id=%s first text=%s: %s' % (fid, t['name'], r['msg'][:300]))
+                continue
             L['violations'] += 1; nviol += 1
             if nviol <= 3:
-                rp = ctx.write_replay('%s-%d' % (leg, nviol), dict(engine='seqx', scenario=leg, name=t['name'], cls=t['cls'], text=t['text'], message=r['msg'], limits=lim))
-                ctx.violation(rp, 'scenario=%s text=%s: %s' % (leg, t['name'], r['msg']))
+                rp = ctx.write_replay('%s-%d' % (leg, nviol), dict(engine='seqx', scenario=leg, name=t['name'], cls=t['cls'], args=t['args'], feats=sorted(t['feats']), text=t['text'], message=r['msg'], candidate_finding=fid, limits=lim))
+                pre = ('GENUINE DEFECT CANDIDATE %s (not listed in known_findings.json): ' % fid) if fid else ''
+                ctx.violation(rp, 'scenario=%s text=%s%s: %s%s' % (leg, t['name'], (' [ptgpp ' + ' '.join(t['args']) + ']') if t['args'] else '', pre, r['msg']))
+    for fid, n in known_counts.items():
+        ctx.notes.append('known finding %s matched %d texts' % (fid, n))
     for L in legs.values():
         L['distinct_outcomes'] = len(L['outcomes']); L['outcome_list'] = sorted(L['outcomes'])[:40]; del L['outcomes']
         if L['violations']:
             L['exhaustive'] = False
         ctx.add_leg(**L)
-        sys.stderr.write('C24[%s]: texts=%d tool-runs=%d accepted=%d compiled=%d rejected=%d limit-guard=%d outcomes=%d violations=%d\n'
-                         % (L['name'], L['executions'], L['transitions'], L['accepted'], L['compiled'], L['rejected'], L['limit_guard'], L['distinct_outcomes'], L['violations']))
+        sys.stderr.write('C24[%s]: texts=%d tool-runs=%d accepted=%d compiled=%d rejected=%d limit-guard=%d outcomes=%d known=%d violations=%d\n'
+                         % (L['name'], L['executions'], L['transitions'], L['accepted'], L['compiled'], L['rejected'], L['limit_guard'], L['distinct_outcomes'], L['known_finding_hits'], L['violations']))
     ctx.notes.append('limits of the build: %s' % json.dumps(lim))
     if valid_rejected:
-        ctx.notes.append('%d texts built as valid and within the limits were not accepted+compiled (not a violation of the property as stated): %s' % (len(valid_rejected), '; '.join(valid_rejected[:12])))
-        sys.stderr.write('C24: valid-by-construction but not accepted+compiled: %d  %s\n' % (len(valid_rejected), valid_rejected[:6]))
+        ctx.notes.append('%d texts built as valid and within the limits were not accepted+compiled (only a violation when the C is not compilable or ptgpp crashes): %s' % (len(valid_rejected), '; '.join(valid_rejected[:12])))
     nvalid = sum(1 for t in texts if t['cls'] == 'within')
     ncomp = sum(1 for t, r in zip(texts, results) if r and t['cls'] == 'within' and r['compiled'])
     if not nviol and nvalid and ncomp * 2 < nvalid and not cut[0]:
@@ -214,13 +276,17 @@ def replay(ctx, path, obj):
     build, ptgpp = _env(ctx)
     wd = '/tmp/c24-replay-%d' % os.getpid()
     shutil.rmtree(wd, ignore_errors=True)
-    t = dict(name=obj.get('name', '?'), text=obj['text'], cls=obj.get('cls', 'mutant'))
-    print('replay: text %s (%s), %d lines' % (t['name'], t['cls'], t['text'].count('\n')))
+    t = dict(name=obj.get('name', '?'), text=obj['text'], cls=obj.get('cls', 'mutant'), args=obj.get('args', []), feats=set(obj.get('feats', [])))
+    print('replay: text %s (%s), %d lines, ptgpp args %s' % (t['name'], t['cls'], t['text'].count('\n'), t['args']))
     r = run_one(ptgpp, build, wd, t)
     shutil.rmtree(wd, ignore_errors=True)
     print('  outcome: %s' % r['outcome'])
     if r['verdict'] == 'violation':
+        fid = attribute(t, r)
         print('  ' + r['msg'])
+        if fid and fid in listed_findings():
+            print('KNOWN-FINDING: property=C24 id=%s' % fid)
+            return 0
         print('VIOLATION property=C24 replay=%s' % path)
         return 1
     print('replay: property holds for this text')
